@@ -1,3 +1,28 @@
-import Usual.Common
-/-! Model driver for C02 (stub: not built yet). -/
-def main : IO Unit := IO.println "stub"
+import Usual.C02.Parse
+/-! Model driver for C02: same op lines as `harness/C02/h.c`.
+
+* `d <hex>` — `Usual.C02.parse` with the four option sets (bits 0..3), `strtod` instantiated
+  by `Usual.C02.strtodModel` (exact big-integer decimal → binary64);
+* `f <hex>` — `strtodModel` on a token: bits and bytes consumed. -/
+open Usual Usual.C02
+
+def opD (doc : List UInt8) : String :=
+  let r := fun (n : Nat) => dumpRes (parse strtodModel (Opts.ofBits n) doc)
+  r 0 ++ " | " ++ r 1 ++ " | " ++ r 2 ++ " | " ++ r 3
+
+def stepLine (_ : Unit) (line : String) : Unit × String :=
+  if line.trimAscii.toString == "#case" then ((), "#case") else
+  match words line with
+  | ["d", h] =>
+    match parseHex h with
+    | some doc => ((), opD doc)
+    | none => ((), "bad-op")
+  | ["f", h] =>
+    match parseHex h with
+    | some tok =>
+      let r := strtodModel tok
+      ((), String.ofList (Nat.toDigits 16 r.1.toNat) ++ " " ++ toString r.2)
+    | none => ((), "bad-op")
+  | _ => ((), "bad-op")
+
+def main : IO Unit := runDriver () stepLine
